@@ -38,6 +38,14 @@ Section Cost.
   Definition work_motion (w : F) (a b : pt) : F := fmax A (fsub A (snd b) (snd a)) (f0 A) +. w *. dist (fst a) (fst b).
   Definition cost_work (w : F) (p : list pt) : F := path_cost (f0 A) (fadd A) (work_motion w) p.
 
+  (* MultiOptimizationObjective: motionCost = identity + w1 * motionCost1 + w2 * motionCost2 + ... (in the order the components were
+     added), combine = + *)
+  Definition multi_motion (comps : list (F * (pt -> pt -> F))) (a b : pt) : F :=
+    fold_left (fun c k => c +. fst k *. snd k a b) comps (f0 A).
+  Definition cost_multi (comps : list (F * (pt -> pt -> F))) (p : list pt) : F := path_cost (f0 A) (fadd A) (multi_motion comps) p.
+  Definition length_motion (a b : pt) : F := dist (fst a) (fst b).
+  Definition integral_motion (a b : pt) : F := trapezoid (snd a) (snd b) (dist (fst a) (fst b)).
+
   (* MinimaxObjective: a motion is given by the state costs evaluated along it, first state first; its cost is the
      worst of them; combineCosts keeps the worse of two; better = isCostBetterThan *)
   Section Minimax.
